@@ -58,7 +58,11 @@ theorem fact_available_subnet_expressions (usedCount replicas : Nat) (kp sized n
     with that address' node subnets first). -/
 theorem fact_filter_shape :
     Generated.C03.availableSubnetShape = true ∧ Generated.C03.getSubnetReturnsAllocError = true ∧
-    Generated.C03.allocateDuringFilterAttr = true ∧ Generated.C03.getSubnetAnswersOwnedFirst = true := by decide
+    Generated.C03.allocateDuringFilterAttr = true ∧ Generated.C03.getSubnetAnswersOwnedFirst = true ∧
+    ∀ r z n : Bool, Generated.C03.filterAllocatesWhen r z n = ((r || z) && n) := by
+  refine ⟨by decide, by decide, by decide, by decide, fun r z n => ?_⟩
+  unfold Generated.C03.filterAllocatesWhen
+  cases r <;> cases z <;> cases n <;> rfl
 
 /-- `allocateDuringFilter` returns the error of `allocateInSubnetWithKey` without falling through to a fresh
     allocation. -/
